@@ -169,13 +169,16 @@ def _(rng, w):
 @T("D1.rotate_shift_mask")
 def _(rng, w):
     big = rng.choice([32, 64, 64, 128])
-    a = var(rng, big, "x")
-    l = rng.choice([3, 8, 16, 24, 1, 31])
+    a = rng.choice([var(rng, big, "x"), _x(rng, big)])
     tot = rng.choice([32, 64])
+    l = rng.choice([1, 3, 8, 16, 24, 31, tot - 1, tot // 2])
     r = tot - l
     if r <= 0:
         r = 1
-    mask = rng.choice([((0xFFFFFFFF if tot == 64 else 0xFFFF) << l) % (1 << big), 0xFFFF00, 0x7FFFFFFF8, rng.getrandbits(big)])
+    k = rng.choice([1, 8, 15, 16, 17, 31, 32, 33, tot - 1, tot])          # a run of k low ones, rotated left by l
+    low = (1 << min(k, tot)) - 1
+    rot = ((low << l) | (low >> (tot - l))) & ((1 << tot) - 1)
+    mask = rng.choice([rot, rot, rot, ((0xFFFFFFFF if tot == 64 else 0xFFFF) << l) % (1 << big), (1 << tot) - 1, 0xFFFF00, 0x7FFFFFFF8, rng.getrandbits(big)])
     return ("and", ("or", ("shl", a, ("bvv", l, big)), ("lshr", a, ("bvv", r, big))), ("bvv", mask % (1 << big), big))
 @T("D6.and_concat_mask")
 def _(rng, w):
@@ -286,6 +289,13 @@ def _(rng, w):
                        ("ite", c, z, ("ite", c, x, y)), ("ite", c, z, ("ite", nc, x, y)),
                        ("ite", c, ("boolv", 1), ("boolv", 0)), ("ite", c, ("boolv", 0), ("boolv", 1)),
                        ("ite", c, ("boolv", 1), ("boolv", 1))])
+@T("I.ite_multiarg")
+def _(rng, w):
+    c = _cond(rng, w)
+    op = rng.choice(["add", "xor", "and", "or", "mul"])
+    a, b, d, e, f = (var(rng, w, "xyz") if rng.random() < 0.8 else _c(rng, w) for _ in range(5))
+    return rng.choice([("ite", c, (op, a, b, d), (op, a, e, f)), ("ite", c, (op, a, b, d), (op, a, b, f)), ("ite", c, (op, a, b), (op, e, b)),
+                       ("ite", c, ("concat", a, b, d), ("concat", a, e, f)), ("ite", c, ("sub", a, b), ("sub", a, e))])
 @T("J1.invert_if")
 def _(rng, w):
     ww = rng.choice([1, 1, w])
